@@ -445,4 +445,452 @@ example : (scanDirect exCfg [] none {} {}).2.inputs = 0 := by decide
 example : (scanDirect exCfg [] (some .ambient) {} {}).1 = some (.wrapped .ambient) := by decide
 example : chunk 7 3 0 = [0, 1] ∧ chunk 7 3 1 = [2, 3] ∧ chunk 7 3 2 = [4, 5, 6] ∧ chunk 2 4 3 = [0, 1] := by decide
 
+/-! ## deepening: schedule independence, monotonicity in the fault plan, per-tile decomposition -/
+
+/-- a step that survives a larger fault plan survives every smaller one -/
+theorem bad_mono (plan plan' : Plan) (h : ∀ p ∈ plan, p ∈ plan') (s : Step) (hb : s.bad plan' = false) :
+    s.bad plan = false := by
+  cases s with
+  | point p =>
+    simp [Step.bad] at hb ⊢
+    exact fun hm => hb (h _ hm)
+  | alloc n => rfl
+  | write c => rfl
+  | fail e => simp [Step.bad] at hb
+
+/-- straight-line code that survives a larger fault plan survives every smaller one -/
+theorem stepsOK_mono (plan plan' : Plan) (h : ∀ p ∈ plan, p ∈ plan') (ss : List Step)
+    (hs : StepsOK plan' ss) : StepsOK plan ss :=
+  fun s m => bad_mono plan plan' h s (hs s m)
+
+/-- a tile (`subset_by_slice` + decorated `scan`) that survives a larger fault plan survives every smaller one -/
+theorem tileOK_mono (cfg : Cfg) (plan plan' : Plan) (amb : Option Exc) (t : Nat) (h : ∀ p ∈ plan, p ∈ plan')
+    (ht : TileOK cfg plan' amb t) : TileOK cfg plan amb t :=
+  ⟨fun hm => ht.1 (h _ hm),
+   ⟨stepsOK_mono plan plan' h _ ht.2.1.1, ht.2.1.2.1,
+    fun j hj => stepsOK_mono plan plan' h _ (ht.2.1.2.2.1 j hj), stepsOK_mono plan plan' h _ ht.2.1.2.2.2⟩,
+   ht.2.2⟩
+
+/-- **outcome_schedule_independent.**  Whether `scan_subsets` raises or returns does not depend on the completion
+order of either pool, on the progress of tasks in flight, on the pool policy, nor on the initial ledger / trace:
+any two schedules give the same raise / return decision. -/
+theorem outcome_schedule_independent (cfg : Cfg) (plan : Plan) (amb : Option Exc) (pol pol' : Policy)
+    (sch sch' : Sched) (w w' : World) :
+    (scanSubsets cfg plan amb pol sch w).1 = none ↔ (scanSubsets cfg plan amb pol' sch' w').1 = none := by
+  rw [scanSubsets_returns_iff, scanSubsets_returns_iff]
+
+/-- the same for a direct `scan`: the raise / return decision is the same for every completion order of the
+scoring jobs and every progress of the jobs in flight -/
+theorem scan_outcome_schedule_independent (cfg : Cfg) (plan : Plan) (amb : Option Exc) (ts ts' : TileSched)
+    (w w' : World) :
+    (scanDirect cfg plan amb ts w).1 = none ↔ (scanDirect cfg plan amb ts' w').1 = none := by
+  unfold scanDirect
+  rw [handler_fst_none, handler_fst_none, scanBody_fst_none, scanBody_fst_none]
+
+/-- **add_fault_monotone.**  Adding faults to the plan never turns a raise into a return: a search that returns under
+a plan returns under every sub-plan (schedules may differ). -/
+theorem add_fault_monotone (cfg : Cfg) (plan plan' : Plan) (amb : Option Exc) (pol pol' : Policy)
+    (sch sch' : Sched) (w w' : World) (h : ∀ p ∈ plan, p ∈ plan')
+    (hret : (scanSubsets cfg plan' amb pol' sch' w').1 = none) :
+    (scanSubsets cfg plan amb pol sch w).1 = none := by
+  rw [scanSubsets_returns_iff] at hret ⊢
+  exact ⟨hret.1, fun t ht => tileOK_mono cfg plan plan' amb t h (hret.2.1 t ht),
+    stepsOK_mono plan plan' h _ hret.2.2⟩
+
+/-- the contrapositive: a search that raises still raises after any number of further faults are added -/
+theorem raise_persists_under_more_faults (cfg : Cfg) (plan plan' : Plan) (amb : Option Exc) (pol pol' : Policy)
+    (sch sch' : Sched) (w w' : World) (h : ∀ p ∈ plan, p ∈ plan')
+    (hr : (scanSubsets cfg plan amb pol sch w).1 ≠ none) :
+    (scanSubsets cfg plan' amb pol' sch' w').1 ≠ none :=
+  fun hret => hr (add_fault_monotone cfg plan plan' amb pol pol' sch sch' w w' h hret)
+
+/-- monotonicity for a direct `scan` -/
+theorem scan_add_fault_monotone (cfg : Cfg) (plan plan' : Plan) (amb : Option Exc) (ts ts' : TileSched)
+    (w w' : World) (h : ∀ p ∈ plan, p ∈ plan') (hret : (scanDirect cfg plan' amb ts' w').1 = none) :
+    (scanDirect cfg plan amb ts w).1 = none := by
+  unfold scanDirect at hret ⊢
+  rw [handler_fst_none, scanBody_fst_none] at hret ⊢
+  exact ⟨⟨stepsOK_mono plan plan' h _ hret.1.1, hret.1.2.1,
+    fun j hj => stepsOK_mono plan plan' h _ (hret.1.2.2.1 j hj), stepsOK_mono plan plan' h _ hret.1.2.2.2⟩, hret.2⟩
+
+/-- the raise / return decision depends on the *set* of planned faults only: order and repetition of the faults in
+the plan are irrelevant -/
+theorem outcome_depends_on_fault_set (cfg : Cfg) (plan plan' : Plan) (amb : Option Exc) (pol pol' : Policy)
+    (sch sch' : Sched) (w w' : World) (h : ∀ p, p ∈ plan ↔ p ∈ plan') :
+    (scanSubsets cfg plan amb pol sch w).1 = none ↔ (scanSubsets cfg plan' amb pol' sch' w').1 = none :=
+  ⟨add_fault_monotone cfg plan' plan amb pol' pol sch' sch w' w (fun p hp => (h p).mpr hp),
+   add_fault_monotone cfg plan plan' amb pol pol' sch sch' w w' (fun p hp => (h p).mp hp)⟩
+
+/-- **returns_iff_no_live_fault.**  With a non-degenerate job schedule and no ambient exception the search returns
+exactly when no planned fault sits on one of its program points (success iff the effective fault list is empty) -/
+theorem returns_iff_no_live_fault (cfg : Cfg) (plan : Plan) (pol : Policy) (sch : Sched) (w : World)
+    (ho : 1 ≤ cfg.outer) (hi : 1 ≤ cfg.inner) :
+    (scanSubsets cfg plan none pol sch w).1 = none ↔ ∀ p ∈ plan, p ∉ allPoints cfg := by
+  constructor
+  · intro hret p hp hlive
+    obtain ⟨e, he⟩ := fault_raises cfg plan none pol sch w p hp hlive
+    rw [hret] at he; cases he
+  · intro h
+    exact no_fault_returns cfg plan pol sch w h ho hi
+
+/-- **tile_failure_blocks_result.**  If the `scan` of one tile raises (under some inner schedule, from some world),
+the whole search raises for every schedule — whatever the other tiles do -/
+theorem tile_failure_blocks_result (cfg : Cfg) (plan : Plan) (amb : Option Exc) (pol : Policy) (sch : Sched)
+    (w : World) (t : Nat) (ht : t < cfg.ntiles) (ts : TileSched) (w0 : World)
+    (hfail : (scanBody cfg plan ts t w0).1 ≠ none) :
+    (scanSubsets cfg plan amb pol sch w).1 ≠ none := by
+  intro hret
+  obtain ⟨_, htiles, _⟩ := (scanSubsets_returns_iff cfg plan amb pol sch w).mp hret
+  exact hfail ((scanBody_fst_none cfg plan ts t w0).mpr (htiles t ht).2.1)
+
+/-- **returns_iff_every_tile_returns.**  The search returns exactly when `n_jobs ≠ 0`, every tile run on its own
+(from any world, under any schedule) returns, and the final merge does: no tile's failure can be masked by the
+others, and nothing but a tile / merge failure makes the search raise -/
+theorem returns_iff_every_tile_returns (cfg : Cfg) (plan : Plan) (amb : Option Exc) (pol : Policy)
+    (sch sch' : Sched) (w w1 w2 : World) :
+    (scanSubsets cfg plan amb pol sch w).1 = none ↔
+      cfg.outer ≠ 0 ∧ (∀ t < cfg.ntiles, (tileFull cfg plan amb sch' t w1).1 = none) ∧
+        (execSteps plan none (outerPost cfg) w2).1 = none := by
+  rw [scanSubsets_returns_iff, execSteps_fst_none]
+  constructor
+  · rintro ⟨h0, ht, hp⟩
+    exact ⟨h0, fun t htl => (tileFull_fst_none cfg plan amb sch' t w1).mpr (ht t htl), hp⟩
+  · rintro ⟨h0, ht, hp⟩
+    exact ⟨h0, fun t htl => (tileFull_fst_none cfg plan amb sch' t w1).mp (ht t htl), hp⟩
+
+/-- the original cause (below the `Exception(...)` wrappers) of whatever the search raises is a planned fault at one
+of its program points, the `n_jobs = 0` error, or the cause of the caller's ambient exception -/
+theorem raised_root (cfg : Cfg) (plan : Plan) (amb : Option Exc) (pol : Policy) (sch : Sched) (w : World) (e : Exc)
+    (h : (scanSubsets cfg plan amb pol sch w).1 = some e) :
+    (∃ p ∈ plan, p ∈ allPoints cfg ∧ e.root = .fault p) ∨ e.root = .badArg ∨ (∃ a, amb = some a ∧ e.root = a.root) := by
+  rcases raised_origin cfg plan amb pol sch w e h with ⟨p, hp, hl, rfl | rfl⟩ | rfl | rfl | ⟨a, ha, rfl⟩
+  · exact Or.inl ⟨p, hp, hl, rfl⟩
+  · exact Or.inl ⟨p, hp, hl, rfl⟩
+  · exact Or.inr (Or.inl rfl)
+  · exact Or.inr (Or.inl rfl)
+  · exact Or.inr (Or.inr ⟨a, ha, rfl⟩)
+
+-- non-vacuity of the new premises
+example : (scanSubsets exCfg [⟨.rotate, 5, 0⟩, ⟨.callback, 1, 2⟩] none .kill {} {}).1 ≠ none ∧
+    (scanSubsets exCfg [⟨.rotate, 5, 0⟩] none .kill {} {}).1 = none := by decide
+example : (scanBody exCfg [⟨.rotate, 1, 1⟩] {} 1 {}).1 ≠ none := by decide
+
+/-! ## deepening: created vs live segments, trace monotonicity -/
+
+/-- `Bnd a b`: between world `a` and world `b` the allocation counter did not go back and the ledger grew by at most
+the number of segments created in between -/
+def Bnd (a b : World) : Prop := a.nalloc ≤ b.nalloc ∧ b.live.length + a.nalloc ≤ a.live.length + b.nalloc
+
+theorem Bnd.refl (a : World) : Bnd a a := ⟨Nat.le_refl _, Nat.le_refl _⟩
+
+theorem Bnd.trans {a b c : World} (h1 : Bnd a b) (h2 : Bnd b c) : Bnd a c := by
+  unfold Bnd at *; omega
+
+/-- one step creates as many segments as it adds to the ledger -/
+theorem step_bnd (plan : Plan) (mgr : Option Nat) (s : Step) (w : World) : Bnd w (step plan mgr s w).2 := by
+  cases s with
+  | point p => simp only [step]; split <;> exact Bnd.refl w
+  | alloc n => simp [step, allocSegs, Bnd]; omega
+  | write b => simp only [step]; split <;> exact Bnd.refl w
+  | fail e => exact Bnd.refl w
+
+theorem execSteps_bnd (plan : Plan) (mgr : Option Nat) (ss : List Step) (w : World) :
+    Bnd w (execSteps plan mgr ss w).2 := by
+  induction ss generalizing w with
+  | nil => exact Bnd.refl _
+  | cons s ss ih =>
+    have h1 := step_bnd plan mgr s w
+    unfold execSteps
+    rcases hs : step plan mgr s w with ⟨_ | e, w'⟩
+    · rw [hs] at h1; exact h1.trans (ih w')
+    · rw [hs] at h1; exact h1
+
+/-- `SharedMemoryManager.__exit__` only removes segments and creates none -/
+theorem release_bnd (id : Nat) (w : World) : Bnd w (release id w) := by
+  unfold Bnd release
+  have := List.length_filter_le (fun s : Seg => s.mgr != some id) w.live
+  simp only
+  omega
+
+theorem scanBody_bnd (cfg : Cfg) (plan : Plan) (ts : TileSched) (t : Nat) (w : World) :
+    Bnd w (scanBody cfg plan ts t w).2 := by
+  have hpre := execSteps_bnd plan (some t) (preSteps cfg t) w
+  unfold scanBody
+  rcases hp : execSteps plan (some t) (preSteps cfg t) w with ⟨_ | e, w1⟩
+  · rw [hp] at hpre; simp only at hpre ⊢
+    split
+    · exact hpre
+    · have hpool := runPool_inv (jobFull plan t) (jobPart plan t ts) cfg.inner (fun w' => Bnd w w')
+        (fun j w' h => h.trans (execSteps_bnd plan (some t) j.2 w'))
+        (Or.inr (fun j w' h => h.trans (execSteps_bnd plan (some t) _ w')))
+        (poolOrder cfg.inner ts.picks (jobsOf cfg t)) w1 hpre
+      rcases hr : runPool (jobFull plan t) (jobPart plan t ts) cfg.inner
+          (poolOrder cfg.inner ts.picks (jobsOf cfg t)) w1 with ⟨_ | e, w2⟩
+      · rw [hr] at hpool; simp only at hpool ⊢
+        exact hpool.trans (execSteps_bnd plan (some t) _ w2)
+      · rw [hr] at hpool; exact hpool
+  · rw [hp] at hpre; exact hpre
+
+theorem tileFull_bnd (cfg : Cfg) (plan : Plan) (amb : Option Exc) (sch : Sched) (t : Nat) (w : World) :
+    Bnd w (tileFull cfg plan amb sch t w).2 := by
+  have h1 := execSteps_bnd plan none [.point ⟨.subset, t, 0⟩] w
+  unfold tileFull
+  rcases hs : execSteps plan none [.point ⟨.subset, t, 0⟩] w with ⟨_ | e, w1⟩
+  · rw [hs] at h1; simp only at h1 ⊢
+    rw [handler_snd]
+    exact h1.trans ((scanBody_bnd cfg plan _ t w1).trans (release_bnd t _))
+  · rw [hs] at h1; exact h1
+
+theorem tilePart_bnd (cfg : Cfg) (plan : Plan) (amb : Option Exc) (pol : Policy) (sch : Sched) (t : Nat)
+    (w : World) : Bnd w (tilePart cfg plan amb pol sch t w) := by
+  unfold tilePart
+  cases pol with
+  | drain => exact tileFull_bnd cfg plan amb sch t w
+  | kill =>
+    have h12 := (execSteps_bnd plan none [.point ⟨.subset, t, 0⟩] w).trans
+      (execSteps_bnd plan (some t) ((flatSteps cfg t).take (sch.progress.getD t {}).steps)
+        (execSteps plan none [.point ⟨.subset, t, 0⟩] w).2)
+    simp only
+    split
+    · exact h12.trans (release_bnd t _)
+    · exact h12
+
+/-- **live_bounded_by_created.**  For every fault plan, schedule and policy, returned or raised: the allocation
+counter never goes back, and the number of segments live after the call exceeds the number live before it by at most
+the number of segments the call created (segments are only ever added by `to_sharedarr`; in particular a call that
+creates nothing leaves nothing) -/
+theorem live_bounded_by_created (cfg : Cfg) (plan : Plan) (amb : Option Exc) (pol : Policy) (sch : Sched) (w : World) :
+    w.nalloc ≤ (scanSubsets cfg plan amb pol sch w).2.nalloc ∧
+    (scanSubsets cfg plan amb pol sch w).2.live.length + w.nalloc ≤
+      w.live.length + (scanSubsets cfg plan amb pol sch w).2.nalloc := by
+  show Bnd w (scanSubsets cfg plan amb pol sch w).2
+  unfold scanSubsets
+  by_cases h0 : cfg.outer = 0
+  · simp only [h0, if_true]; exact Bnd.refl w
+  · simp only [h0, if_false]
+    have hpool := runPool_inv (tileFull cfg plan amb sch) (tilePart cfg plan amb pol sch) cfg.outer
+      (fun w' => Bnd w w')
+      (fun t w' h => h.trans (tileFull_bnd cfg plan amb sch t w'))
+      (Or.inr (fun t w' h => h.trans (tilePart_bnd cfg plan amb pol sch t w')))
+      (poolOrder cfg.outer sch.outerPicks (List.range cfg.ntiles)) w (Bnd.refl w)
+    rcases hr : runPool (tileFull cfg plan amb sch) (tilePart cfg plan amb pol sch) cfg.outer
+        (poolOrder cfg.outer sch.outerPicks (List.range cfg.ntiles)) w with ⟨_ | e, w1⟩
+    · rw [hr] at hpool; simp only at hpool ⊢
+      exact hpool.trans (execSteps_bnd plan none (outerPost cfg) w1)
+    · rw [hr] at hpool; exact hpool
+
+/-- the same bound for a direct `scan` -/
+theorem scan_live_bounded_by_created (cfg : Cfg) (plan : Plan) (amb : Option Exc) (ts : TileSched) (w : World) :
+    w.nalloc ≤ (scanDirect cfg plan amb ts w).2.nalloc ∧
+    (scanDirect cfg plan amb ts w).2.live.length + w.nalloc ≤
+      w.live.length + (scanDirect cfg plan amb ts w).2.nalloc := by
+  show Bnd w (scanDirect cfg plan amb ts w).2
+  unfold scanDirect
+  rw [handler_snd]
+  exact (scanBody_bnd cfg plan ts 0 w).trans (release_bnd 0 _)
+
+theorem tilePart_traceSub (cfg : Cfg) (plan : Plan) (amb : Option Exc) (pol : Policy) (sch : Sched) (t : Nat)
+    (w : World) : TraceSub w (tilePart cfg plan amb pol sch t w) := by
+  unfold tilePart
+  cases pol with
+  | drain => exact (tileFull_trace cfg plan amb sch t w).1
+  | kill =>
+    have h12 := (execSteps_traceSub plan none [.point ⟨.subset, t, 0⟩] w).trans
+      (execSteps_traceSub plan (some t) ((flatSteps cfg t).take (sch.progress.getD t {}).steps)
+        (execSteps plan none [.point ⟨.subset, t, 0⟩] w).2)
+    simp only
+    split
+    · exact fun p hp => h12 p hp
+    · exact h12
+
+/-- **trace_monotone.**  The search never un-does work: every program point reached before the call is still recorded
+after it, for every plan, schedule and policy, returned or raised (frame property of the trace) -/
+theorem trace_monotone (cfg : Cfg) (plan : Plan) (amb : Option Exc) (pol : Policy) (sch : Sched) (w : World) :
+    ∀ p ∈ w.trace, p ∈ (scanSubsets cfg plan amb pol sch w).2.trace := by
+  show TraceSub w (scanSubsets cfg plan amb pol sch w).2
+  unfold scanSubsets
+  by_cases h0 : cfg.outer = 0
+  · simp only [h0, if_true]; exact TraceSub.refl w
+  · simp only [h0, if_false]
+    have hpool := runPool_inv (tileFull cfg plan amb sch) (tilePart cfg plan amb pol sch) cfg.outer
+      (fun w' => TraceSub w w')
+      (fun t w' h => h.trans (tileFull_trace cfg plan amb sch t w').1)
+      (Or.inr (fun t w' h => h.trans (tilePart_traceSub cfg plan amb pol sch t w')))
+      (poolOrder cfg.outer sch.outerPicks (List.range cfg.ntiles)) w (TraceSub.refl w)
+    rcases hr : runPool (tileFull cfg plan amb sch) (tilePart cfg plan amb pol sch) cfg.outer
+        (poolOrder cfg.outer sch.outerPicks (List.range cfg.ntiles)) w with ⟨_ | e, w1⟩
+    · rw [hr] at hpool; simp only at hpool ⊢
+      exact hpool.trans (execSteps_traceSub plan none (outerPost cfg) w1)
+    · rw [hr] at hpool; exact hpool
+
+/-- **created_eq_released.**  Under the corrected pool (or sequential tiles, or a returning run) the number of
+segments released by the call equals the number it created: the ledger has its old length although the allocation
+counter advanced by the number of `to_sharedarr` calls made -/
+theorem created_eq_released (cfg : Cfg) (plan : Plan) (amb : Option Exc) (sch : Sched) (w : World)
+    (hw : ∀ s ∈ w.live, s.mgr = none) :
+    (w.live.length + ((scanSubsets cfg plan amb .drain sch w).2.nalloc - w.nalloc))
+      - (scanSubsets cfg plan amb .drain sch w).2.live.length
+      = (scanSubsets cfg plan amb .drain sch w).2.nalloc - w.nalloc := by
+  rw [ledger_empty_after cfg plan amb sch w hw]
+  omega
+
+/-! ## deepening: direct `scan` success criterion, degenerate job schedules, what can be left behind -/
+
+/-- a direct `scan` (no ambient exception) returns exactly when `n_jobs ≠ 0` and no planned fault sits on one of
+its program points — for every inner schedule (success iff the effective fault list is empty) -/
+theorem scan_returns_iff_no_live_fault (cfg : Cfg) (plan : Plan) (ts : TileSched) (w : World) :
+    (scanDirect cfg plan none ts w).1 = none ↔ cfg.inner ≠ 0 ∧ ∀ p ∈ plan, p ∉ scanPoints cfg := by
+  unfold scanDirect
+  rw [handler_fst_none, scanBody_fst_none, bodyOK_iff]
+  constructor
+  · rintro ⟨⟨hi, hs⟩, _⟩
+    refine ⟨hi, fun p hp hm => ?_⟩
+    obtain ⟨s, hs', hb⟩ := bad_of_pt plan _ p hm hp
+    rw [hs s hs'] at hb; cases hb
+  · rintro ⟨hi, h⟩
+    exact ⟨⟨hi, stepsOK_of_no_planned_point plan _ (flatSteps_nofail cfg 0) h⟩, rfl⟩
+
+/-- `job_schedule[0] = 0`: the search raises at once, nothing was created, reached or written -/
+theorem zero_outer_jobs_raises (cfg : Cfg) (plan : Plan) (amb : Option Exc) (pol : Policy) (sch : Sched) (w : World)
+    (h : cfg.outer = 0) : scanSubsets cfg plan amb pol sch w = (some .badArg, w) := by
+  simp [scanSubsets, h]
+
+/-- `job_schedule[1] = 0` with at least one tile: the search raises for every plan and schedule (no empty result) -/
+theorem zero_inner_jobs_raises (cfg : Cfg) (plan : Plan) (amb : Option Exc) (pol : Policy) (sch : Sched) (w : World)
+    (h : cfg.inner = 0) (hn : 1 ≤ cfg.ntiles) : (scanSubsets cfg plan amb pol sch w).1 ≠ none := by
+  intro hret
+  obtain ⟨_, htiles, _⟩ := (scanSubsets_returns_iff cfg plan amb pol sch w).mp hret
+  exact (htiles 0 (by omega)).2.1.2.1 h
+
+/-- `JExt a b`: the ledger of `b` is the ledger of `a` followed by segments that are all tracked by some manager -/
+def JExt (a b : World) : Prop := ∃ l, b.live = a.live ++ l ∧ ∀ s ∈ l, s.mgr ≠ none
+
+theorem JExt.step {a b c : World} {t : Nat} (h1 : JExt a b) (h2 : LiveExt (some t) b c) : JExt a c := by
+  obtain ⟨l1, e1, o1⟩ := h1
+  obtain ⟨l2, e2, o2⟩ := h2
+  refine ⟨l1 ++ l2, by rw [e2, e1, List.append_assoc], ?_⟩
+  intro s hs
+  rcases List.mem_append.mp hs with h | h
+  · exact o1 s h
+  · rw [o2 s h]; simp
+
+theorem JExt.release {a b : World} (t : Nat) (ha : ∀ s ∈ a.live, s.mgr = none) (h : JExt a b) :
+    JExt a (release t b) := by
+  obtain ⟨l, e, o⟩ := h
+  refine ⟨l.filter (fun s => s.mgr != some t), ?_, fun s hs => o s (List.mem_filter.mp hs).1⟩
+  simp only [Pm.C16.release]
+  rw [e, List.filter_append]
+  congr 1
+  exact List.filter_eq_self.mpr (fun s hs => by simp [ha s hs])
+
+theorem JExt.subsetStep {a b : World} (plan : Plan) (t : Nat) (h : JExt a b) :
+    JExt a (execSteps plan none [.point ⟨.subset, t, 0⟩] b).2 := by
+  have hl := execSteps_live_noalloc plan none [.point ⟨.subset, t, 0⟩] b (by simp)
+  obtain ⟨l, e, o⟩ := h
+  exact ⟨l, by rw [hl]; exact e, o⟩
+
+theorem tileFull_jext (cfg : Cfg) (plan : Plan) (amb : Option Exc) (sch : Sched) (t : Nat) (a w : World)
+    (ha : ∀ s ∈ a.live, s.mgr = none) (h : JExt a w) : JExt a (tileFull cfg plan amb sch t w).2 := by
+  have h1 := JExt.subsetStep plan t h
+  unfold tileFull
+  rcases hs : execSteps plan none [.point ⟨.subset, t, 0⟩] w with ⟨_ | e, w1⟩
+  · rw [hs] at h1; simp only at h1 ⊢
+    rw [handler_snd]
+    exact JExt.release t ha (h1.step (scanBody_liveExt cfg plan _ t w1))
+  · rw [hs] at h1; exact h1
+
+theorem tilePart_jext (cfg : Cfg) (plan : Plan) (amb : Option Exc) (pol : Policy) (sch : Sched) (t : Nat)
+    (a w : World) (ha : ∀ s ∈ a.live, s.mgr = none) (h : JExt a w) :
+    JExt a (tilePart cfg plan amb pol sch t w) := by
+  unfold tilePart
+  cases pol with
+  | drain => exact tileFull_jext cfg plan amb sch t a w ha h
+  | kill =>
+    have h12 := (JExt.subsetStep plan t h).step
+      (execSteps_liveExt plan (some t) ((flatSteps cfg t).take (sch.progress.getD t {}).steps)
+        (execSteps plan none [.point ⟨.subset, t, 0⟩] w).2)
+    simp only
+    split
+    · exact JExt.release t ha h12
+    · exact h12
+
+/-- **leftovers_are_tracked (today's pool included).**  For every plan, schedule and policy, returned or raised: the
+segments that were live before the call are all still there, in order (the search never unlinks a foreign segment),
+and whatever the call leaves behind on top of them was created through a `SharedMemoryManager` of one of its tiles —
+never an untracked `SharedMemory(create=True)` -/
+theorem leftovers_are_tracked (cfg : Cfg) (plan : Plan) (amb : Option Exc) (pol : Policy) (sch : Sched) (w : World)
+    (hw : ∀ s ∈ w.live, s.mgr = none) :
+    ∃ l, (scanSubsets cfg plan amb pol sch w).2.live = w.live ++ l ∧ ∀ s ∈ l, s.mgr ≠ none := by
+  show JExt w (scanSubsets cfg plan amb pol sch w).2
+  unfold scanSubsets
+  by_cases h0 : cfg.outer = 0
+  · simp only [h0, if_true]; exact ⟨[], by simp, by simp⟩
+  · simp only [h0, if_false]
+    have hpool := runPool_inv (tileFull cfg plan amb sch) (tilePart cfg plan amb pol sch) cfg.outer
+      (fun w' => JExt w w')
+      (fun t w' h => tileFull_jext cfg plan amb sch t w w' hw h)
+      (Or.inr (fun t w' h => tilePart_jext cfg plan amb pol sch t w w' hw h))
+      (poolOrder cfg.outer sch.outerPicks (List.range cfg.ntiles)) w ⟨[], by simp, by simp⟩
+    rcases hr : runPool (tileFull cfg plan amb sch) (tilePart cfg plan amb pol sch) cfg.outer
+        (poolOrder cfg.outer sch.outerPicks (List.range cfg.ntiles)) w with ⟨_ | e, w1⟩
+    · rw [hr] at hpool; simp only at hpool ⊢
+      obtain ⟨l, e, o⟩ := hpool
+      exact ⟨l, by rw [outerPost_live]; exact e, o⟩
+    · rw [hr] at hpool; exact hpool
+
+-- non-vacuity: a non-empty foreign ledger survives a killed pool that leaks
+example : (scanSubsets { exCfg with inner := 1, nrot := 1 } [⟨.callback, 0, 0⟩] none .kill
+    { progress := [{}, { steps := 5 }] } { live := [⟨none, 7⟩] }).2.live.head? = some ⟨none, 7⟩ := by decide
+
+/-! ## deepening: a schedule only permutes the tasks -/
+
+theorem extract_perm {α : Type} (i : Nat) (x : α) (xs : List α) :
+    List.Perm (x :: xs) ((extract i x xs).1 :: (extract i x xs).2) := by
+  induction i generalizing x xs with
+  | zero => exact List.Perm.refl _
+  | succ i ih =>
+    cases xs with
+    | nil => exact List.Perm.refl _
+    | cons y ys =>
+      simp only [extract]
+      exact ((ih y ys).cons x).trans (List.Perm.swap _ _ _)
+
+/-- the completion order chosen by a schedule is a permutation of the submitted tasks: no job or tile is dropped,
+none runs twice, whatever the picks -/
+theorem pickOrder_perm {α : Type} (picks : List Nat) (l : List α) : List.Perm l (pickOrder picks l) := by
+  induction picks generalizing l with
+  | nil => cases l <;> exact List.Perm.refl _
+  | cons k ks ih =>
+    cases l with
+    | nil => exact List.Perm.refl _
+    | cons x xs =>
+      simp only [pickOrder]
+      exact (extract_perm _ x xs).trans ((ih _).cons _)
+
+/-- the order in which `joblib.Parallel` completes the tasks (either pool, any `n_jobs`) is a permutation of them -/
+theorem poolOrder_perm {α : Type} (njobs : Nat) (picks : List Nat) (l : List α) :
+    List.Perm l (poolOrder njobs picks l) := by
+  unfold poolOrder
+  split
+  · exact List.Perm.refl _
+  · exact pickOrder_perm picks l
+
+/-- **pool_outcome_perm.**  For any worker pool whose tasks fail independently of the world (as scoring jobs and tiles
+do): running the tasks in any permuted order, with any `n_jobs`, any in-flight behaviour and from any world gives the
+same raise / return decision -/
+theorem pool_outcome_perm {τ : Type} (full : τ → World → Option Exc × World) (part part' : τ → World → World)
+    (njobs njobs' : Nat) (bad : τ → Bool) (hfull : ∀ t w, (full t w).1 = none ↔ bad t = false)
+    (ts ts' : List τ) (hperm : List.Perm ts ts') (w w' : World) :
+    (runPool full part njobs ts w).1 = none ↔ (runPool full part' njobs' ts' w').1 = none := by
+  rw [runPool_fst_none full part njobs bad hfull, runPool_fst_none full part' njobs' bad hfull]
+  exact ⟨fun h t ht => h t (hperm.mem_iff.mpr ht), fun h t ht => h t (hperm.mem_iff.mp ht)⟩
+
+/-- instance for the scoring jobs of one `scan`: any permutation of the jobs gives the same raise / return decision -/
+theorem jobs_outcome_perm (plan : Plan) (t : Nat) (ts ts' : TileSched) (njobs njobs' : Nat)
+    (js js' : List (Nat × List Step)) (hperm : List.Perm js js') (w w' : World) :
+    (runPool (jobFull plan t) (jobPart plan t ts) njobs js w).1 = none ↔
+      (runPool (jobFull plan t) (jobPart plan t ts') njobs' js' w').1 = none :=
+  pool_outcome_perm (jobFull plan t) _ _ njobs njobs' (fun j => j.2.any (·.bad plan))
+    (jobFull_fst_none plan t) js js' hperm w w'
+
 end Pm.C16
